@@ -885,10 +885,11 @@ class _GroupElem(ABC):
 
         jacobian_e_pg = FeArray.asfearray(Det(F_e_pg))
 
-        if self.dim != self.inDim and self.order > 1:
-            # a curved line or surface is longer / larger than its projection on the
-            # element's own axis / plane: the measure is the one of the curve / surface itself,
-            # sqrt(det(T T^t)) with T the tangent vectors, oriented as the projection is
+        if self.dim != self.inDim and (self.order > 1 or self.nPe > self.dim + 1):
+            # a curved line or surface (higher-order elements, warped 4-node quadrangles) is
+            # longer / larger than its projection on the element's own axis / plane: the measure
+            # is the one of the curve / surface itself, sqrt(det(T T^t)) with T the tangent
+            # vectors, oriented as the projection is
             connect = self._global_to_local_nodes[self.connect]
             coord_e = self.coord[connect]
             tangents_e_pg = np.einsum(
